@@ -363,6 +363,9 @@ def execute(schedule, ctx):
     chk = lambda sig, ok, detail=None: ctx.check('C08', sig, ok, detail)  # noqa: E731
     subs = d['submodels']
     ids = list(subs)
+    exp_check = {'_': list(spec['own']['check'])}
+    for s_ in ids:
+        exp_check[s_] = list(spec['subs'][s_].get('check', spec['subs'][s_]['endo']))
     ctx.probe(f'submodels:{min(len(ids), 2)}{"+" if len(ids) > 2 else ""}')
 
     # ---- construction facts
@@ -478,15 +481,20 @@ def execute(schedule, ctx):
             continue
         if kind == 'edit_check':
             target = L if op['who'] == '_' else subs.get(op['who'])
-            if target is not None and isinstance(target.__dict__.get('check'), list):
+            if target is not None and isinstance(target.__dict__.get('check'), list) and op['who'] in exp_check:
                 lst = target.__dict__['check']
+                want_ = exp_check[op['who']]  # (the edit is decided on the harness's own account of the list)
                 if op['how'] == 'append':
-                    extra = [x for x in target.__dict__['index'] if x not in lst and x not in ('status', 'iterations') and target.__dict__['_' + x].dtype.kind in 'fi']
+                    extra = [x for x in target.__dict__['index'] if x not in want_ and x not in ('status', 'iterations') and target.__dict__['_' + x].dtype.kind in 'fi']
                     if extra:
                         lst.append(extra[op['k'] % len(extra)])
+                        want_.append(extra[op['k'] % len(extra)])
                         ctx.probe('history:instance-check-append')
-                elif lst:
-                    lst.remove(lst[op['k'] % len(lst)])
+                elif want_:
+                    nm_ = want_[op['k'] % len(want_)]
+                    if nm_ in lst:
+                        lst.remove(nm_)
+                    want_.remove(nm_)
                     ctx.probe('history:instance-check-remove')
             ctx.log(step, 'edit_check')
             ctx.outcome('edit_check', 'ok')
@@ -644,9 +652,11 @@ def execute(schedule, ctx):
 
         # ---- the start state after the offset copy (linker's own endogenous and every selected submodel's), by the
         #      instances' own endogenous / check lists as they are now
-        own_endo, own_check = list(d['endogenous']), list(d['check'])
+        # (the check lists are the classes' own plus the edits this history made - kept by the harness, not read back from
+        #  the instances, whose lists are part of what is judged; a submodel that joined during the run brings its own)
+        own_endo, own_check = list(d['endogenous']), list(exp_check['_'])
         sub_endo = {sid: list(subs[sid].__dict__['endogenous']) for sid in ids}
-        sub_check = {sid: list(subs[sid].__dict__['check']) for sid in ids}
+        sub_check = {sid: list(exp_check[sid]) if sid in exp_check else list(subs[sid].__dict__['check']) for sid in ids}
         start = {k_: {nm: a.copy() for nm, a in v_.items()} for k_, v_ in snap.items()}
         if off:
             ctx.probe('offset-used')
